@@ -149,6 +149,48 @@ static void solve_judge(vf::Ctx& ctx, const std::string& inst, const char* what,
     if (!within(ctx, "solve-residual", err, allow)) viol(ctx, inst, what, n, err, allow);
 }
 
+// Ill-conditioned shifted system with an ordinary solution: the shift sits at a relative distance of 1e-5..1e-10 from a (real) eigenvalue of F and the right-hand side is
+// (F - sigma I) y0 with y0 of ordinary size.  "Backward-stable accuracy" means ||Fs y - x|| <= c n u (||Fs|| ||y|| + ||x||) WHATEVER the conditioning, and pivoted LU /
+// Bunch-Kaufman deliver that; a method that is only accurate relative to cond(Fs) (multiplying by an explicit inverse, a factorization with relaxed pivoting, an iterative
+// solve stopped early) leaves a residual ~ u cond ||x||.  With a random right-hand side the solution is dominated by the nearly singular direction, ||y|| ~ ||inv(Fs)|| ||x||,
+// and the two kinds cannot be told apart - hence the structured right-hand side.  `solve(sigma, x, y)` builds a fresh wrapper on the plain presentation.
+template <class S, class SolveFn>
+static void near_eigenvalue_check(vf::Ctx& ctx, const std::string& inst, int n, const DMat<S>& F, bool symmetric, SolveFn&& solve)
+{
+    auto& r = ctx.rng;
+    std::vector<LD> reals;
+    LD spread = 0;
+    if (symmetric)
+    {
+        Eigen::SelfAdjointEigenSolver<DMat<S>> es(F);
+        for (int i = 0; i < n; i++) reals.push_back((LD) es.eigenvalues()[i]);
+        spread = std::max<LD>(std::abs(reals.front()), std::abs(reals.back()));
+    }
+    else
+    {
+        Eigen::EigenSolver<DMat<S>> es(F, false);
+        for (int i = 0; i < n; i++) { spread = std::max<LD>(spread, std::abs(es.eigenvalues()[i])); if (es.eigenvalues()[i].imag() == 0) reals.push_back((LD) es.eigenvalues()[i].real()); }
+    }
+    if (reals.empty() || !(spread > 0)) { ctx.count("near_eigenvalue/no-real-eigenvalue"); return; }
+    const LD lam = reals[(size_t) r.range(0, (long) reals.size() - 1)];
+    const LD digits = -std::log10(unit<S>());   // 7.2 / 16 / 19.3: the distance is chosen so that cond stays below ~0.03/u (beyond that the system is singular to working precision)
+    const LD rel = std::pow(10.0L, -(LD) r.range((long) std::ceil(0.3L * digits), (long) std::floor(0.62L * digits))) * (r.coin() ? 1 : -1);
+    const S sigma = S(lam + rel * spread);
+    MatCLD Fs = F.template cast<CLD>();
+    Fs.diagonal().array() -= CLD((LD) sigma);
+    const LD kap = cond2<CLD>(Fs);
+    if (!(kap < std::min<LD>(1e13L, 0.03L / unit<S>()))) { ctx.count("near_eigenvalue/numerically-singular"); return; }
+    const DVec<S> y0 = rvec<S>(r, n);
+    const DVec<S> x = (Fs * y0.template cast<CLD>()).real().template cast<S>();
+    DVec<S> y(n);
+    y.setConstant(nan_of<S>());
+    try { solve(sigma, x, y); }
+    catch (const std::exception&) { ctx.count("near_eigenvalue/refused"); return; }   // (a factorization that declares the matrix singular is C10's subject)
+    ctx.count("near_eigenvalue/solves");
+    ctx.count("near_eigenvalue/cond_1e" + std::to_string((int) std::floor(std::log10((double) kap))));
+    solve_judge<S>(ctx, inst, "perform_op-not-backward-stable/shift-next-to-an-eigenvalue,rhs=(A-sigma*I)*y0", n, Fs, x, y);
+}
+
 // ------------------------------------------------------------------------------------------------ registration of all instances
 template <int Uplo, int Flags> static std::string cfg() { return std::string(Uplo == Lower ? "Lower" : "Upper") + "," + (Flags == ColMajor ? "ColMajor" : "RowMajor"); }
 
@@ -180,6 +222,11 @@ static void reg_sym_family()
         T sigma = T(r.gauss());
         ctx.count(std::string("shift_class/") + std::to_string(hostile_shift_class<T, T>(r, F, sigma, true)));
         const std::string inst = "DenseSymShiftSolve<" + cfg<Uplo, Flags>() + ">";
+        near_eigenvalue_check<T>(ctx, inst, n, F, true, [&](T sg, const DVec<T>& in, DVec<T>& out) {
+            auto Pn = dense_from<T, Flags>(F, Uplo, 1, r);
+            Spectra::DenseSymShiftSolve<T, Uplo, Flags> o(Pn);
+            o.set_shift(sg); o.perform_op(in.data(), out.data());
+        });
         MatCLD Fs = F.template cast<CLD>();
         Fs.diagonal().array() -= CLD((LD) sigma);
         if (!(cond2<CLD>(Fs.template cast<CLD>()) < 1e6L)) { ctx.count("skipped_ill_conditioned"); return; }
@@ -267,6 +314,11 @@ static void reg_sparse_sym_family(const char* siname)
         T sigma = T(r.gauss());
         ctx.count(std::string("shift_class/") + std::to_string(hostile_shift_class<T, T>(r, F, sigma, true)));
         const std::string inst = "SparseSymShiftSolve<" + c + ">";
+        near_eigenvalue_check<T>(ctx, inst, n, F, true, [&](T sg, const DVec<T>& in, DVec<T>& out) {
+            auto Pn = sparse_from<T, Flags, SI>(F, Uplo, 1, r);
+            Spectra::SparseSymShiftSolve<T, Uplo, Flags, SI> o(Pn);
+            o.set_shift(sg); o.perform_op(in.data(), out.data());
+        });
         MatCLD Fs = F.template cast<CLD>();
         Fs.diagonal().array() -= CLD((LD) sigma);
         if (!(cond2<CLD>(Fs) < 1e6L)) { ctx.count("skipped_ill_conditioned"); return; }
@@ -378,6 +430,11 @@ static void reg_gen_family()
         T sigma = T(r.gauss());
         ctx.count(std::string("shift_class/") + std::to_string(hostile_shift_class<T, T>(r, F, sigma, false)));
         const std::string inst = "DenseGenRealShiftSolve<" + c + ">";
+        near_eigenvalue_check<T>(ctx, inst, n, F, false, [&](T sg, const DVec<T>& in, DVec<T>& out) {
+            auto Pn = dense_from<T, Flags>(F, 0, 0, r);
+            Spectra::DenseGenRealShiftSolve<T, Flags> o(Pn);
+            o.set_shift(sg); o.perform_op(in.data(), out.data());
+        });
         MatCLD Fs = F.template cast<CLD>();
         Fs.diagonal().array() -= CLD((LD) sigma);
         if (!(cond2<CLD>(Fs) < 1e6L)) { ctx.count("skipped_ill_conditioned"); return; }
@@ -452,6 +509,11 @@ static void reg_sparse_gen_family(const char* siname)
         T sigma = T(r.gauss());
         ctx.count(std::string("shift_class/") + std::to_string(hostile_shift_class<T, T>(r, F, sigma, false)));
         const std::string inst = "SparseGenRealShiftSolve<" + c + ">";
+        near_eigenvalue_check<T>(ctx, inst, n, F, false, [&](T sg, const DVec<T>& in, DVec<T>& out) {
+            auto Pn = sparse_from<T, Flags, SI>(F, 0, 0, r);
+            Spectra::SparseGenRealShiftSolve<T, Flags, SI> o(Pn);
+            o.set_shift(sg); o.perform_op(in.data(), out.data());
+        });
         MatCLD Fs = F.template cast<CLD>();
         Fs.diagonal().array() -= CLD((LD) sigma);
         if (!(cond2<CLD>(Fs) < 1e6L)) { ctx.count("skipped_ill_conditioned"); return; }
